@@ -81,6 +81,9 @@ class BMC:
                 task = self.val_at(t, n.desc[1], k)
                 w = z3.Or([z3.And(task == z3.BitVecVal(i, task.size()), self.woken[k][i]) for i in range(self.ntasks)]) if self.ntasks else z3.BoolVal(False)
                 conds.append(z3.And(self.pcs[t][k] == n.id, z3.Not(w)))
+            elif n.desc[0] == "await":
+                ready = z3.And([self.is_kind(u, k, "done") for u in self.opts.get("await_threads", [])] + [z3.BoolVal(True)])
+                conds.append(z3.And(self.pcs[t][k] == n.id, z3.Not(ready)))
         return z3.Or(conds) if conds else z3.BoolVal(False)
 
     def parked(self, t, k):
@@ -155,6 +158,7 @@ class BMC:
         if kind == "free": return (("root", d[1]), True)
         if kind == "wake": return (("woken",), True)
         if kind == "park": return (("woken",), True)
+        if kind == "await": return (("await",), True)
         if kind == "wake_cell": return (d[1], True)        # reads the cell AND touches the woken flags: conservatively a write to the cell
         raise EncodingError("access of " + kind)
 
@@ -208,7 +212,7 @@ class BMC:
             for n in g.vis():
                 at = z3.And(here, self.pcs[t][k] == n.id)
                 d = [self.val_at(t, x, k) for x in n.desc]; kind = d[0]
-                key = d[1] if kind not in ("free", "wake", "park") else None
+                key = d[1] if kind not in ("free", "wake", "park", "await") else None
                 if kind == "wake_cell": key = d[1]
                 if key is not None and key[0] in self.alive[k]:
                     err_now.append(z3.And(at, z3.Not(self.alive[k][key[0]])))
@@ -257,6 +261,8 @@ class BMC:
                     err_now.append(z3.And(at, cell == 0))          # waking through a reference to a waker that is no longer there
                     for i in range(self.ntasks):
                         new_woken[i] = z3.If(z3.And(at, cell == z3.BitVecVal(i + 1, cell.size())), z3.BoolVal(True), new_woken[i])
+                elif kind == "await":
+                    pass
                 elif kind == "park":
                     task = d[1]
                     for i in range(self.ntasks):
@@ -448,6 +454,6 @@ class BMC:
             if n is None or n.kind != "vis": continue
             d = n.desc
             loc = ""
-            if d[0] not in ("free", "wake", "park"): loc = "%s.%s" % (d[1][0], ".".join(str(x) for x in d[1][1]))
+            if d[0] not in ("free", "wake", "park", "await"): loc = "%s.%s" % (d[1][0], ".".join(str(x) for x in d[1][1]))
             sched.append({"step": k, "thread": t, "call": n.call, "op": d[0], "loc": loc})
         return sched
